@@ -28,8 +28,9 @@ def main():
         if not (d / "patch.diff").exists() or (only and d.name not in only):
             continue
         prop = json.load(open(d / "meta.json"))["property"]
-        ap = sh(f"git -C /repo apply {d / 'patch.diff'} || (cd /repo && patch -p1 < {d / 'patch.diff'})")
-        applied = bool(sh("git -C /repo status --porcelain").stdout.strip())
+        # exact application only: a patch that no longer applies must be rebased by hand, not half-applied with fuzz
+        ap = sh(f"git -C /repo apply {d / 'patch.diff'}")
+        applied = ap.returncode == 0 and bool(sh("git -C /repo status --porcelain").stdout.strip())
         row = {"property": prop, "applied": applied}
         try:
             if applied:
